@@ -210,7 +210,9 @@ def roll_rules(chk):
             okss = len(zl) == 1
         chk.ob("R-ROLL", c + "{cumsum store}", "the cumulative sum fills csum[1:] exactly", okss,
                derived="%s" % [(e.target_shape, e.value_shape) for e in ss], loc=ss[0].loc if ss else fi.loc(),
-               inconclusive=bool(ss) and okss and unk_ss)
+               # no running sum anywhere in the function (windows formed by convolution, a loop ...): not located
+               inconclusive=(bool(ss) and okss and unk_ss) or (not ss and not okss and not any(
+                   e.name in ("numpy.cumsum",) for e in r.events("lib-call", q))))
     rets = [n for n in ast.walk(fi.node) if isinstance(n, ast.Return) and n.value is not None]
     p = Normaliser().poly(rets[-1].value)
     # the running sum is whatever array is read at [steps:] and at [:-steps] (one and the same): call it csum
